@@ -265,6 +265,8 @@ def ctor_matchees():
     V += [('tuple', lambda: info_of(C6.MetaSub(2))), ('tuple', lambda: info_of(C6.MetaValueError((1, 2)))), ('tuple', lambda: info_of(C6.OddError(1))),
           ('tuple', lambda: info_of(C6.UserInterrupt())), ('fn', lambda: C6.Fn(exc=C6.MetaSub(2))), ('fn', lambda: C6.Fn(exc=C6.OddError((1, 2)))),
           ('fn', lambda: C6.Fn(exc=C6.MetaError('x')))]
+    # round h: callables that repeat a warning, emit near-repeats, quiet categories
+    V += [('fn', lambda k=k: C6.Fn(ret=C6.WARN_BASE + k)) for k in (0, 1, 3, 8, 11)]
     return V
 
 
